@@ -141,6 +141,21 @@ CLAIMED["C15"] = dict(
     technique="Coq proof (selection exactness, replace identity preservation) + vm_compute correspondence",
     design="4/C15")
 
+CLAIMED["C18"] = dict(
+    text=("Text-level model of the path printer, of the command-line path grammar (the two alternatives of "
+          "_PATH_PART as extracted from the source, with ast.literal_eval on keys), of repr()/string-literal "
+          "unescaping on ASCII and of the flag-directive fold; theorems: parse(print p) = erase p on the stated "
+          "domain, literal_eval(repr s) = s for ASCII strings, directives are consumed strictly left to right "
+          "with the base-config rules. Evaluated in Coq on every printed leaf path (text, parse result), on "
+          "escape-weighted strings and on directive sequences through a real FiddleFlag; the oracle follows "
+          "every printed path, writes it back with a new literal through set_value and checks that exactly that "
+          "leaf changed, and checks the flag serializer round trip and CallExpression.parse."),
+    note=COMMON_NOTE + " zlib/base64/json/ast.literal_eval trusted; non-ASCII characters are outside the Coq "
+         "statement. Known finding: a **kwargs entry named like a positional-only parameter is printed but "
+         "cannot be written back.",
+    technique="Coq proof (print/parse and repr/unescape round trips) + vm_compute correspondence on printed paths",
+    design="4/C18")
+
 PENDING_REASON = "check not built yet in this session (work in progress; see DESIGN.md section 4)"
 
 
